@@ -29,6 +29,8 @@ impl ObserverBox {
     pub fn len(&self) -> (r: usize) ensures r == self.spec_len() { unimplemented!() }
 }
 
+// the time the clock was last synchronised on (-1: never)
+pub open spec fn last_sync(s: Seq<u64>) -> int { if s.len() > 0 { s.last() as int } else { -1 } }
 impl ClockBox {
     // the log of all times passed to Clock::synchronize
     pub uninterp spec fn syncs(&self) -> Seq<u64>;
@@ -67,19 +69,22 @@ pub enum ExecutorError { UnprocessedMessages(usize), Timeout, Panic(ModelId, Pay
 impl Executor {
     // log of the tasks handed to the executor: one Seq<aid> per task (a SeqFuture is a sequence)
     pub uninterp spec fn spawned(&self) -> Seq<Seq<int>>;
-    // number of times Executor::run was entered (= the only way model code runs)
-    pub uninterp spec fn runs(&self) -> nat;
+    // log of the calls of Executor::run (= the only way model code runs): for each call, the simulation time and the
+    // time the clock was last synchronised on (-1: never) at the moment the executor was entered
+    pub uninterp spec fn run_at(&self) -> Seq<(u64, int)>;
+    // number of times Executor::run was entered
+    pub open spec fn runs(&self) -> nat { self.run_at().len() }
     // number of models registered with ModelId (ids are issued by add_model, unit reg)
     pub uninterp spec fn n_models(&self) -> nat;
     #[verifier::external_body]
     pub fn spawn_and_forget(&mut self, f: SeqFuture)
-        ensures final(self).spawned() == old(self).spawned().push(f.aids()), final(self).runs() == old(self).runs(),
+        ensures final(self).spawned() == old(self).spawned().push(f.aids()), final(self).run_at() == old(self).run_at(),
             final(self).n_models() == old(self).n_models(),
     { unimplemented!() }
     // assumption A-exec: runs every spawned task to quiescence at the current time; may return any error
     #[verifier::external_body]
-    pub fn run(&mut self, timeout: Duration) -> (r: Result<(), ExecutorError>)
-        ensures final(self).spawned() == old(self).spawned(), final(self).runs() == old(self).runs() + 1,
+    pub fn run(&mut self, timeout: Duration, Ghost(now): Ghost<u64>, Ghost(synced): Ghost<int>) -> (r: Result<(), ExecutorError>)
+        ensures final(self).spawned() == old(self).spawned(), final(self).run_at() == old(self).run_at().push((now, synced)),
             final(self).n_models() == old(self).n_models(),
             r matches Err(ExecutorError::Panic(id, _p)) ==> id.0 == usize::MAX || id.0 < final(self).n_models(),
     { unimplemented!() }
@@ -87,7 +92,7 @@ impl Executor {
 impl Action {
     #[verifier::external_body]
     pub fn spawn_and_forget(self, e: &mut Executor)
-        ensures final(e).spawned() == old(e).spawned().push(seq![self.aid()]), final(e).runs() == old(e).runs(),
+        ensures final(e).spawned() == old(e).spawned().push(seq![self.aid()]), final(e).run_at() == old(e).run_at(),
             final(e).n_models() == old(e).n_models(),
     { unimplemented!() }
 }
